@@ -397,6 +397,34 @@ pub fn scenario_hostile(id: u64, seed: u64, thorough: bool) -> Vec<Value> {
         _ => (Name::from_labels(&["none", "_hostile", "_tcp", "local"]), Name::from_labels(&["none", "local"])),
     };
     sim.kick(d);
+    // while our own names are being probed: queries for them (type ANY and others) whose authority section holds
+    // nothing, a prefix of what we propose, exactly what we propose, or more (tiebreak with lists of every length)
+    for _ in 0..r.range(0, 4) {
+        let mut q = wire::query(vec![(own_inst.clone(), wire::T_ANY), (own_host.clone(), wire::T_ANY)]);
+        if r.chance(1, 3) {
+            q.questions.truncate(1);
+        }
+        let ours = vec![
+            RR::new(own_inst.clone(), false, 120, RData::Srv { prio: 0, weight: 0, port: 4321, target: own_host.clone() }),
+            RR::new(own_inst.clone(), false, 4500, RData::Txt(vec![3, b'k', b'=', b'v'])),
+            RR::new(own_host.clone(), false, 120, RData::A([192, 168, 1, 10])),
+            RR::new(own_host.clone(), false, 120, RData::Aaaa([0xfe, 0x80, 0, 0, 0, 0, 0, 0, 0, 0, 0, 0, 0, 1, 0, 0x10])),
+        ];
+        let take = r.below(ours.len() as u64 + 2) as usize;
+        q.authorities = ours.into_iter().take(take).collect();
+        if take > 4 {
+            q.authorities.push(RR::new(own_host.clone(), false, 120, RData::A([192, 168, 1, 250])));
+        }
+        if r.chance(1, 4) {
+            r.shuffle(&mut q.authorities);
+        }
+        sim.deliver(d, 2, sock4(192, 168, 1, 79, 5353), &q, r.chance(1, 2));
+        sim.kick(d);
+        pass_time(&mut sim, r.below(300));
+        if !sim.daemons[d].alive {
+            break;
+        }
+    }
     let n = if thorough { 60 } else { 25 };
     let srcs = [sock4(192, 168, 1, 77, 5353), sock4(192, 168, 1, 78, 40000), sock4(10, 1, 2, 3, 5353)];
     for k in 0..n {
